@@ -92,7 +92,10 @@ fn main() {
             let mut r = prng::Rng::new(seed);
             let mut out = Vec::new();
             match prop {
-                "C01" => ops_codec::gen_c01(&mut r, thorough, &mut out),
+                "C01" => {
+                    ops_codec::gen_c01(&mut r, thorough, &mut out);
+                    ops_c14::gen_real(&mut r, thorough, &mut out);
+                }
                 "C02" => ops_codec::gen_c02(&mut r, thorough, &mut out),
                 "C03" => ops_codec::gen_c03(&mut r, thorough, &mut out),
                 "C16" => ops_schema::gen_c16(&mut r, thorough, &mut out),
